@@ -67,8 +67,8 @@ def main():
         "evidence_file": "/verif/evidence/C04.json",
         "replay_cmd_template": "python3 c04_mir.py --replay {path}",
         "engine": "mir-smt",
-        "level_claimed": {"category": "model_checking", "text": "Kernel-level only (dynamic hints): for each filter operator, the closure that hints/dynamic.rs builds to turn a resolved tag value into a candidate (compute_candidate_from_operation and resolve_fold_specific_field, plus Range::with_start / with_end), executed symbolically from rustc's MIR, never excludes a value that passes the filter - for every tag value, probe value and initial candidate; decided by z3 and cross-checked by cvc5. The static constructor, mandatory-edge classification and the end-to-end statement are not claimed.", "design_ref": "DESIGN.md section 5 C04"},
-        "level_note": "Bounds: every integer tag / probe in [-2^63, 2^64) (integers standing for any totally ordered scalar kind), null probes, null tags for = and !=, one_of tags of 2 elements (0..=4 thorough) with nulls anywhere; one filter per hint; arbitrary initial candidate (uninterpreted predicate) | Outside the claim: hints/filters.rs (static candidates, fold_requires_at_least_one_element: Kani probes do not finish), non-binding filters, EdgeInfo::is_mandatory, the pruning-adapter == plain-adapter statement; counterexamples in resolve_fold_specific_field cannot be replayed natively (no entry point without a pipeline) and are reported as inconclusive (exit 2), not as VIOLATION | Trusted: rustc nightly MIR dump, the MIR interpreter in c04_mir.py (validated on every run against the real function on 100+ concrete cases), z3, cvc5; callee summaries for intersect / exclude_single_value (the laws decided by C06) and clone / as_slice / to_vec",
+        "level_claimed": {"category": "model_checking", "text": "Kernel-level only (the three hint constructors, not the pipeline): (1) dynamic hints - for each filter operator, the closure that hints/dynamic.rs builds to turn a resolved tag value into a candidate (compute_candidate_from_operation and resolve_fold_specific_field, plus Range::with_start / with_end) never excludes a value that passes the filter, for every tag value, probe value and initial candidate; (2) static hints - hints/filters.rs::candidate_from_statically_evaluated_filters, whole body and all closures, on every list of up to 2 (3 thorough) filters: a value that passes every filter is in the returned candidate, for every argument value; (3) mandatory folds - fold_requires_at_least_one_element's classification returns true only for candidates that do not contain 0. All executed symbolically from rustc's MIR, decided by z3 and cross-checked by cvc5. Non-binding filters, which filters reach the constructors, and the end-to-end statement are not claimed.", "design_ref": "DESIGN.md section 5 C04"},
+        "level_note": "Bounds: every integer tag / argument / probe in [-2^63, 2^64) (integers standing for any totally ordered scalar kind), null probes, null arguments for = and !=, one_of / not_one_of lists of 2 elements (0..=4 dynamic, 0..=3 static in thorough) with nulls anywhere; dynamic: one filter per hint, arbitrary initial candidate (uninterpreted predicate); static: all single filters over the 20 operators x ($variable | %tag), all pairs (triples in thorough) over 16 filter kinds, field nullable or not; mandatory classification: all candidate shapes with Multiple <= 2 (3 thorough) | Outside the claim: non-binding filters (NeighborInfo), EdgeInfo::is_mandatory for plain edges, the selection of filters in vertex_info.rs, the pruning-adapter == plain-adapter statement; counterexamples in resolve_fold_specific_field cannot be replayed natively (no entry point without a pipeline) and are reported as inconclusive (exit 2), not as VIOLATION | Trusted: rustc nightly MIR dump, the MIR interpreter in c04_mir.py / c04_static.py (validated on every run against the real functions on 400+ concrete cases), z3, cvc5; callee summaries: CandidateValue intersect / exclude_single_value / normalize (the laws decided by C06), clone / as_slice / to_vec, and for the static part the std iterator / Option / Vec / BTreeMap-index operations listed in the evidence file",
         "technique": "symbolic execution of rustc MIR (own interpreter) to SMT-LIB2, decided by z3 4.8.12 and cvc5 1.0; counterexamples replayed natively against the real function",
     })
     checks.sort(key=lambda c: c["property_id"])
